@@ -125,7 +125,7 @@ def dbOfWire (s : String) : Option DB :=
 
 def blockerWire : Blocker → String
   | .headMismatch => "head"
-  | .atomFailed i rel bts => s!"atom#{i}#{rel}#{Tuple.toWire (bts.filterMap (fun | .conc v => some v | _ => none))}#{patternWire bts}"
+  | .atomFailed i rel bts => s!"atom#{i}#{rel}#{Tuple.toWire (concPart bts)}#{patternWire bts}"
   | .negSucceeded i rel t => s!"neg#{i}#{rel}#{Tuple.toWire t}"
   | .cmpFailed i => s!"cmp#{i}"
   | .cmpError i => s!"cmperr#{i}"
